@@ -335,6 +335,9 @@ func serverUpgraderRules(c *Ctx, prop string) {
 			continue
 		}
 		switch want.kind {
+		case "unconsulted":
+			problems = append(problems, want.err+" "+desc)
+			continue
 		case "transport", "noresponse":
 			if len(we)+len(wu) != 0 || gotErr != want.err {
 				problems = append(problems, fmt.Sprintf("a failing read / unparsable request line must be returned as is without a response: got err=%s, %d error responses, %d upgrades, want err=%s %s", gotErr, len(we), len(wu), want.err, desc))
@@ -370,6 +373,9 @@ func serverUpgraderRules(c *Ctx, prop string) {
 				problems = append(problems, "the status code is not the rejection's code: "+cs)
 			}
 			if why := statusCodeProblem(p, code); why != "" {
+				problems = append(problems, why+" "+desc)
+			}
+			for _, why := range rejectionProblems(p, gotErr, we[0]) {
 				problems = append(problems, why+" "+desc)
 			}
 			if len(p.Calls("Flush")) != 1 {
@@ -503,21 +509,46 @@ func srvReference(c *Ctx, p *fold.Path, script srvScript, errs map[string]string
 		err = errs["ErrHandshakeBadProtocol"]
 	case 4:
 		err = errs["ErrHandshakeBadMethod"]
-	default:
-		if p.Chose("isnil(OnRequest)") == 0 && p.Chose("OnRequest#1.err") > 0 {
-			err = "OnRequest-error"
-		}
 	}
-	seen := map[int]bool{}
-	proto := false
+	// A path stands for every configuration that agrees with the atoms it asked. Where a
+	// callback applies, the outcome has to depend on it: a path that never asked whether the
+	// callback is set (or never asked for the result of a callback that is set) gives the same
+	// outcome to the configuration in which it objects and to the one in which it is absent.
+	miss := ""
+	isSet := func(name string) bool {
+		switch p.Chose("isnil(" + name + ")") {
+		case 0:
+			return true
+		case -1:
+			if miss == "" {
+				miss = "the outcome of this path does not depend on whether " + name + " is set, although it applies here (a configuration in which it objects must be refused)"
+			}
+		}
+		return false
+	}
+	asked := func(key, name string) int {
+		r := p.Chose(key)
+		if r == -1 && miss == "" {
+			miss = name + " is set and applies here, but it is not consulted on this path"
+		}
+		return r
+	}
 	cbSeq := map[string]int{}
 	callErr := func(name string) bool {
-		if p.Chose("isnil("+name+")") != 0 {
+		if !isSet(name) {
 			return false
 		}
 		cbSeq[name]++
-		return p.Chose(fmt.Sprintf("%s#%d.err", name, cbSeq[name])) > 0
+		return asked(fmt.Sprintf("%s#%d.err", name, cbSeq[name]), name) > 0
 	}
+	if err == "" && callErr("OnRequest") {
+		err = "OnRequest-error"
+	}
+	if miss != "" {
+		return srvOutcome{"unconsulted", miss}
+	}
+	seen := map[int]bool{}
+	proto := false
 	atom := func(op string, idx int, s string) bool {
 		return p.Chose(fmt.Sprintf("%s(v%d,%q)", op, idx, s)) == 1
 	}
@@ -559,9 +590,12 @@ func srvReference(c *Ctx, p *fold.Path, script srvScript, errs map[string]string
 				err = errs["ErrHandshakeBadSecKey"]
 			}
 		case hProtocol:
-			custom := p.Chose("isnil(ProtocolCustom)") == 0
-			plain := p.Chose("isnil(Protocol)") == 0
-			if !proto && (custom || plain) {
+			if proto {
+				break
+			}
+			custom := isSet("ProtocolCustom")
+			plain := !custom && isSet("Protocol")
+			if custom || plain {
 				selSeq++
 				name := "selectProtocol"
 				if custom {
@@ -575,7 +609,7 @@ func srvReference(c *Ctx, p *fold.Path, script srvScript, errs map[string]string
 					}
 				}
 				_ = n
-				r := p.Chose(fmt.Sprintf("%s#%d", name, selSeq))
+				r := asked(fmt.Sprintf("%s#%d", name, selSeq), name)
 				if r == 1 {
 					proto = true
 				}
@@ -584,14 +618,14 @@ func srvReference(c *Ctx, p *fold.Path, script srvScript, errs map[string]string
 				}
 			}
 		case hExtensions:
-			if p.Chose("isnil(Negotiate)") == 0 {
-				if p.Chose("negotiate.err") > 0 {
+			if isSet("Negotiate") {
+				if asked("negotiate.err", "Negotiate") > 0 {
 					err = "negotiate-error"
 				}
-			} else {
-				custom := p.Chose("isnil(ExtensionCustom)") == 0
-				plain := p.Chose("isnil(Extension)") == 0
-				if custom && p.Chose("ExtensionCustom.ok") == 0 || !custom && plain && p.Chose("selectExtensions.ok") == 0 {
+			} else if miss == "" {
+				custom := isSet("ExtensionCustom")
+				plain := !custom && isSet("Extension")
+				if custom && asked("ExtensionCustom.ok", "ExtensionCustom") == 0 || plain && asked("selectExtensions.ok", "Extension") == 0 {
 					err = errs["ErrMalformedRequest"]
 				}
 			}
@@ -599,6 +633,9 @@ func srvReference(c *Ctx, p *fold.Path, script srvScript, errs map[string]string
 			if callErr("OnHeader") {
 				err = "OnHeader-error"
 			}
+		}
+		if miss != "" {
+			return srvOutcome{"unconsulted", miss}
 		}
 	}
 	if err == "" {
@@ -614,8 +651,11 @@ func srvReference(c *Ctx, p *fold.Path, script srvScript, errs map[string]string
 		case !seen[hKey]:
 			err = errs["ErrHandshakeBadSecKey"]
 		default:
-			if p.Chose("isnil(OnBeforeUpgrade)") == 0 && p.Chose("OnBeforeUpgrade#1.err") > 0 {
+			if callErr("OnBeforeUpgrade") {
 				err = "OnBeforeUpgrade-error"
+			}
+			if miss != "" {
+				return srvOutcome{"unconsulted", miss}
 			}
 		}
 	}
@@ -727,4 +767,44 @@ func statusCodeProblem(p *fold.Path, code fold.Val) string {
 		}
 	}
 	return "a rejection without a status (code 0) is answered with status 0 instead of 500: the code " + fold.Show(code) + " is used without a zero test"
+}
+
+// rejectionProblems: the error response has to depend on whether the error is
+// a rejection (a path that never asked answers a rejection carrying its own
+// status and headers like a plain error), and a rejection's headers go out
+// with it, after the configured ones.
+func rejectionProblems(p *fold.Path, gotErr string, we fold.Effect) []string {
+	var out []string
+	name := strings.TrimPrefix(gotErr, "ws.")
+	asked := -1
+	for _, ch := range p.Choices {
+		if strings.HasPrefix(ch.Key, "assert("+gotErr+",") && strings.Contains(ch.Key, "ConnectionRejectedError") {
+			asked = ch.Opt
+		}
+	}
+	if asked == -1 {
+		return []string{"the error response for " + name + " does not depend on whether the error is a rejection: its status and extra headers are not looked at on this path"}
+	}
+	if len(we.Args) < 4 {
+		return out
+	}
+	cl, ok := we.Args[3].(fold.Closure)
+	if !ok || len(cl.Bind) != 1 {
+		return append(out, "undecided: the header writer of the error response is "+fold.Show(we.Args[3]))
+	}
+	arr, ok := cl.Bind[0].(fold.Arr)
+	if !ok || len(arr.E) != 2 {
+		return append(out, "undecided: the header writer of the error response is bound to "+fold.Show(cl.Bind[0]))
+	}
+	first, second := fold.Show(arr.E[0]), fold.Show(arr.E[1])
+	if !strings.Contains(first, "Header") && !(p.Chose("isnil(Header)") == 1 && strings.Contains(first, "nil")) {
+		out = append(out, "the configured extra headers are not the first thing the error response writes after the status line: "+first)
+	}
+	if asked == 1 && !(strings.Contains(second, gotErr) && strings.Contains(second, "header")) {
+		out = append(out, "the headers of the rejection "+name+" are not written with the error response: "+second)
+	}
+	if asked == 0 && !strings.Contains(second, "nil") {
+		out = append(out, "an error that is not a rejection is answered with extra headers "+second)
+	}
+	return out
 }
